@@ -199,7 +199,25 @@ def cases(tier, seed, refs):
     return out
 
 
+def block_ghosts(rep):
+    """block model on the recorded oracle of every source of the alphabet: the model's
+    boundary events (scope leaks) must not occur on a failing parse"""
+    for s_ in ("f2003", "f2008"):
+        for x in LETTERS:
+            if x[0] == "c" or (s_ == "f2003" and x[0] == "v" and int(x[1]) in VALID_F08_ONLY):
+                continue
+            fs, info = util.block_cosim(source_of(x), std=s_)
+            for f in fs:
+                rep.violation(f["signature"], f["what"], f["replay"], True)
+            bad = set(info.get("ghost") or []) & {"scopeLeak", "main0Leak", "emptyScopeName"}
+            if bad and str(info.get("outcome", "")).startswith(("raise:Syntax", "none", "tree")):
+                rep.violation("model-scope-leak:%s" % sorted(bad), "block model logs %s on %r" % (sorted(bad), source_of(x)[:60]),
+                              {"source": source_of(x), "std": s_})
+            rep.count("block-cosim")
+
+
 def run(tier, rep, st):
+    block_ghosts(rep)
     refs = {}
     for s in ("f2003", "f2008"):
         for x in LETTERS:
